@@ -93,6 +93,10 @@ BODIES = {
     # hunt C17/d9: a tracked field that names main's qubit, in an object only a dropped cycle holds: its outcome must not depend on whether
     # the cycle is collected before or after main measures the qubit
     "tracked-borrowed-qubit-held-by-dropped-cycle": ["qubit bq;", "NW a = new NW();", "NW b = new NW();", "a.other = b;", "b.other = a;", "a.w = new WB(bq);", "a = null;", "b = null;", "echo(burst(2));", "x(bq);", "measure bq;", "echo(\"end\");"],
+    # (second hunt, C11/d1 demo2) a LIVE qubit-holding object that a dropped cycle also refers to: when it dies depends on whether the cycle
+    # was swept before or after the program's own reference went - what a handle copied out of it measures must not
+    "live-qubit-owner-referenced-from-dropped-cycle": ["Q t = new Q();", "x(t.q);", "qubit hq = t.q;", "CX c1 = new CX();", "c1.peer = c1;", "c1.qown = t;", "c1 = null;", "echo(burst(2));", "t = null;", "echo(burst(2));", "echo(measure hq);"],
+    "live-qubit-owner-referenced-from-dropped-cycle-measured": ["Q t = new Q();", "x(t.q);", "qubit hq = t.q;", "measure hq;", "CX c1 = new CX();", "c1.peer = c1;", "c1.qown = t;", "c1 = null;", "echo(burst(2));", "t = null;", "echo(burst(2));", "reset hq;", "echo(measure hq);"],
     "pressure": ["echo(burst(18));", "N k = new N(9);", "echo(burst(18));", "echo(k.id);"],
     "pressure-args": ["echo(link(mk(burst(18)), mk(burst(18))));"],
     "list": ["N h = chain(5);", "echo(len(h));", "echo(burst(2));", "echo(len(h));", "h.next.next = null;", "echo(burst(2));", "echo(len(h));"],
